@@ -473,7 +473,7 @@ def run_dot_probes(chk, n, stats):
             chk.broken_obligation("driver crashed while running the dot-probe sessions: %s" % c["crash"][:400], session_payload(c))
             return []
         if c.get("panic") or not c.get("returned"):
-            chk.violation("lmtp.Session.Handle panicked or did not return on %r" % c["input"][:200], session_payload(c))
+            session_violation(chk, "lmtp.Session.Handle panicked or did not return on %r" % c["input"][:200], c)
             continue
         c["greet"], c["reps"], c["wf"] = parse_replies(c["out"])
         good.append(c)
@@ -502,7 +502,7 @@ def run_dot_probes(chk, n, stats):
         else:
             what = ("message data not passed through exactly: the octets stored for the recipients differ from the submitted body "
                     "(stream %r, stored %r)" % (c["input"][:300], c.get("stored")))
-        chk.violation(what, payload)
+        session_violation(chk, what, c, payload)
     return good
 
 
@@ -545,6 +545,27 @@ def mk_case(inp, ms, mr, chunk, info=None, corpus=None):
     return {"input": inp, "ms": ms, "mr": mr, "chunk": chunk, "info": info or {}, "corpus": corpus}
 
 
+def session_violation(chk, what, c, payload=None):
+    """Report a violation observed on a session only if the implementation shows it again
+    when the same stream is served to a fresh driver process (the behaviour under test is a
+    function of the byte stream; anything that does not repeat - a stall under machine load,
+    a tree that was being updated during the build - is recorded as a note, not raised)."""
+    again = mk_case(c["input"], c["ms"], c["mr"], c["chunk"])
+    again["observe"] = c.get("observe")
+    try:
+        run_sessions([again])
+    except Exception as e:  # noqa: BLE001
+        again["crash"] = str(e)
+    same = ("crash" not in again and again.get("out") == c.get("out") and again.get("returned") == c.get("returned")
+            and again.get("panic") == c.get("panic") and (again.get("stored") == c.get("stored")))
+    if same:
+        chk.violation(what, payload or session_payload(c))
+        return True
+    chk.notes.append("not reproducible on a second run, not raised: " + what[:300])
+    return False
+
+
+
 def load_corpus():
     out = []
     for f in sorted(glob.glob(os.path.join(C.VERIF, "corpus", "C16", "*.json"))):
@@ -566,8 +587,8 @@ def judge_sessions(chk, cases, codes, stats):
                 continue
             stats["reported"] = stats.get("reported", 0) + 1
             where = (" [regression scenario corpus/C16/%s]" % c["corpus"]) if c.get("corpus") else ""
-            chk.violation("LMTP session out of step%s: replies %s to the stream %r (max_size=%d max_recipients=%d) fail stream_ok" % (
-                where, [r[0] for r in c["reps"]], c["input"][:160], c["ms"], c["mr"]), session_payload(c))
+            session_violation(chk, "LMTP session out of step%s: replies %s to the stream %r (max_size=%d max_recipients=%d) fail stream_ok" % (
+                where, [r[0] for r in c["reps"]], c["input"][:160], c["ms"], c["mr"]), c)
         elif not m:
             stats["disagreements"] += 1
             yield c
@@ -722,14 +743,14 @@ def run(chk):
             chk.broken_obligation("driver crashed while running LMTP sessions: %s" % c["crash"][:400], session_payload(c))
             return
         if c.get("panic"):
-            chk.violation("lmtp.Session.Handle panicked (%s) on %r" % (c["panic"], c["input"][:200]), session_payload(c))
+            session_violation(chk, "lmtp.Session.Handle panicked (%s) on %r" % (c["panic"], c["input"][:200]), c)
             continue
         if not c.get("returned"):
-            chk.violation("lmtp.Session.Handle did not return at the end of the stream %r" % c["input"][:200], session_payload(c))
+            session_violation(chk, "lmtp.Session.Handle did not return at the end of the stream %r" % c["input"][:200], c)
             continue
         c["greet"], c["reps"], c["wf"] = parse_replies(c["out"])
         if not c["greet"] or not c["wf"]:
-            chk.violation("LMTP reply stream is not a greeting followed by well-formed reply lines: %r" % c["out"][:200], session_payload(c))
+            session_violation(chk, "LMTP reply stream is not a greeting followed by well-formed reply lines: %r" % c.get("out", b"")[:200], c)
             continue
         good.append(c)
     codes = eval_sessions(chk, good)
